@@ -155,3 +155,31 @@ def conv_protocol(ck, param, what_prefix):
             ck.disagree("a freshly compiled conv library is not the circuit of the current parameters after a parameter update", case,
                         expected=exp[:3], observed=yc[:3], signature=dict(sig, which="compiled"))
         ck.count("update_protocol_checks")
+
+
+def large_batch_rows(ck, train, what_prefix=""):
+    """A batch large enough that an implementation might process it in pieces (16-fold gate expansion above 2^24 elements):
+    every probed row of the big batch must equal the same row evaluated in a small batch."""
+    from torchlogix.layers import LogicConv2d, LogicDense
+    rng = ck.rng
+    torch.manual_seed(ck.seed + 77)
+    cases = [("conv2d", lambda: LogicConv2d(in_dim=(16, 16), device="cpu", channels=2, num_kernels=8, tree_depth=2, receptive_field_size=3,
+                                            weight_init="random"), (2, 16, 16), 250),
+             ("dense", lambda: LogicDense(64, 4096, device="cpu", weight_init="random"), (64,), 301)]
+    for name, mk, shape, B in cases:
+        l = mk()
+        l.train(train)
+        x = torch.rand(B, *shape) if train else (torch.rand(B, *shape) > 0.5).float()
+        with torch.no_grad():
+            big = l(x)
+        probe = sorted({0, 1, B // 2, B // 2 + 1, (2 * B) // 3, B - 2, B - 1} | {rng.randrange(B) for _ in range(6)})
+        with torch.no_grad():
+            small = torch.cat([l(x[i:i + 1]) for i in probe])
+        ck.case({"layer": name, "batch": B, "train": train, "large_batch": True}, nontrivial=True, kind="large-batch")
+        diff = (big[probe] - small).abs().reshape(len(probe), -1).max(dim=1).values
+        finite = torch.isfinite(big).all()
+        if not finite or float(diff.max()) > 1e-5:
+            bad = int(torch.argmax(diff))
+            ck.disagree("a row of a large batch is not what the same row gives in a small batch", {"layer": name, "batch": B, "row": probe[bad],
+                        "train": train}, observed=float(diff.max()), signature={"what": what_prefix + "large-batch", "layer": name})
+        ck.count("large_batch_rows_compared", len(probe))
